@@ -89,7 +89,27 @@ func coinDenomValues(ff *core.FuncFacts, coins ssa.Value) (denoms []ssa.Value, w
 func denomIs(ff *core.FuncFacts, at ssa.Instruction, coins ssa.Value, producerSuffix string) bool {
 	isProd := func(v ssa.Value) bool {
 		return ff.AllOrigins(v, nil, func(o core.Origin) bool {
-			return o.Kind == "call" && strings.HasSuffix(o.Name, producerSuffix)
+			if o.Kind != "call" {
+				return false
+			}
+			if strings.HasSuffix(o.Name, producerSuffix) {
+				return true
+			}
+			// the deposit denom computed in place from a params record already at hand: what
+			// GetDepositDenom itself returns (params.DepositDenom, or the asset-profile entry
+			// looked up under it)
+			if producerSuffix == "Keeper.GetDepositDenom" {
+				if strings.HasSuffix(o.Name, "Keeper.GetParams") && strings.HasSuffix(o.Path, ".DepositDenom") {
+					return true
+				}
+				if call, ok := o.Val.(*ssa.Call); ok && strings.HasSuffix(o.Name, ".GetEntry") && strings.HasSuffix(o.Path, ".Denom") {
+					args := call.Common().Args
+					return len(args) > 0 && ff.AllOrigins(args[len(args)-1], nil, func(k core.Origin) bool {
+						return strings.HasSuffix(k.Path, ".DepositDenom")
+					})
+				}
+			}
+			return false
 		})
 	}
 	denoms, whole := coinDenomValues(ff, coins)
